@@ -112,6 +112,9 @@ Definition check_C02 (f : fmt) (code : list (str * str)) (doc : list (str * list
       ++ flat_map (fun '(k, v) => if nonempty v then (match values_of obs "" with _ =>
                      match map snd (filter (fun kv => seqb (fst kv) k) obs) with [v'] => fail (seqb v v') (MField k) | _ => [MField k] end end)
                    else match filter (fun kv => seqb (fst kv) k) obs with [] => [] | _ => [MAbsent k] end) (gf i "deb.fields")
+      (* the triggers member (handed over by the harness under the pseudo key "#triggers"): present iff a trigger is
+         configured, and then exactly the configured names under their directives *)
+      ++ opt obs "#triggers" (deb_triggers i)
       ++ fail (nodup_keys [] (map fst obs) []) MDuplicate
   | FIpk =>
       req obs "Package" (gs i "name")
